@@ -156,6 +156,57 @@ theorem c27_duplicate_rule (i : Inscription) :
     · exact Or.inl (Or.inr (by simpa [hm, optLen] using h))
     · exact Or.inr (by simpa [hm, optLen] using h)
 
+/-- **What the parser returns for an arbitrary raw envelope** (any pushes whatsoever, not only
+ord's own): with `v k` = the values that follow key `k` in the tag/value part of the payload
+(`F (fieldPart payload) k`), the un-chunked fields are the first value of their tag, the chunked
+ones the concatenation of all values of their tag, `parents` all values of tag 3, the body the
+concatenation of everything behind the first empty push in tag position;
+`duplicate_field` ⇔ some key has more than one value; `incomplete_field` ⇔ odd number of
+pushes before the body; `unrecognized_even_field` ⇔ after removing what was taken (`remaining`)
+some key with an even first byte is left (unknown even tag, or a repeated un-chunked even tag
+such as a second pointer). -/
+theorem c27_parse_spec (e : Raw) :
+    ∃ p : Parsed, parse e = .ok p ∧
+      p.input = e.input ∧ p.offset = e.offset ∧ p.pushnum = e.pushnum ∧ p.stutter = e.stutter ∧
+      p.payload.body = bodyOf e.payload ∧
+      p.payload.contentEncoding = (F (fieldPart e.payload) [tagContentEncoding]).head? ∧
+      p.payload.contentType = (F (fieldPart e.payload) [tagContentType]).head? ∧
+      p.payload.delegate = (F (fieldPart e.payload) [tagDelegate]).head? ∧
+      p.payload.metadata = joinOpt (F (fieldPart e.payload) [tagMetadata]) ∧
+      p.payload.metaprotocol = (F (fieldPart e.payload) [tagMetaprotocol]).head? ∧
+      p.payload.parents = F (fieldPart e.payload) [tagParent] ∧
+      p.payload.pointer = (F (fieldPart e.payload) [tagPointer]).head? ∧
+      p.payload.properties = joinOpt (F (fieldPart e.payload) [tagProperties]) ∧
+      p.payload.propertyEncoding = (F (fieldPart e.payload) [tagPropertyEncoding]).head? ∧
+      p.payload.rune = (F (fieldPart e.payload) [tagRune]).head? ∧
+      (p.payload.duplicateField = true ↔ ∃ k, (F (fieldPart e.payload) k).length > 1) ∧
+      p.payload.incompleteField = decide ((fieldPart e.payload).length % 2 = 1) ∧
+      (p.payload.unrecognizedEvenField = true ↔
+        ∃ k, remaining (F (fieldPart e.payload)) k ≠ [] ∧ evenKey k = true) := by
+  obtain ⟨hwf, hv, hinc⟩ := collectFields_spec _ (fieldPart e.payload) [] (Nat.le_refl _) WF_nil
+  have hv' : vals (collectFields (fieldPart e.payload) []).1 = F (fieldPart e.payload) := by
+    funext k; rw [hv k]; simp [vals, FieldMap.get]
+  obtain ⟨a1, a2, a3, a4, a5, a6, a7, a8, a9, a10, wrest, vrest⟩ := takeAll_spec _ hwf
+  rw [hv'] at a1 a2 a3 a4 a5 a6 a7 a8 a9 a10 vrest
+  have hD : ((collectFields (fieldPart e.payload) []).1.any (fun kv => decide (kv.2.length > 1)) = true ↔
+      ∃ k, (F (fieldPart e.payload) k).length > 1) := by
+    rw [any_iff _ hwf, hv']
+    constructor
+    · rintro ⟨k, _, h⟩; exact ⟨k, by simpa using h⟩
+    · rintro ⟨k, h⟩
+      refine ⟨k, ?_, by simpa using h⟩
+      intro e0; rw [e0] at h; simp at h
+  have hU : ((takeAll (collectFields (fieldPart e.payload) []).1).rest.any (fun kv => evenKey kv.1) = true ↔
+      ∃ k, remaining (F (fieldPart e.payload)) k ≠ [] ∧ evenKey k = true) := by
+    rw [any_iff _ wrest]
+    simp only [vrest]
+  rw [parse_eq]
+  dsimp only
+  -- make the map and the result of the ten takes opaque before comparing structure fields
+  generalize takeAll (collectFields (fieldPart e.payload) []).1 = T at *
+  generalize collectFields (fieldPart e.payload) [] = cf at *
+  exact ⟨_, rfl, rfl, rfl, rfl, rfl, rfl, a1, a2, a3, a4, a5, a6, a7, a8, a9, a10, hD, hinc, hU⟩
+
 /-- The builder's own precondition: `revealScriptO` (the builder with its `unwrap`) succeeds
 exactly on `buildable` inscriptions, and then produces `revealScript`. -/
 theorem c27_builder_ok (i : Inscription) (h : buildable i = true) :
@@ -242,5 +293,18 @@ example : (InscriptionId.mk (List.replicate 32 0xab) 256).value.length = 34 := b
 example : fromWitnesses [[[0x00, 0x63, 0x03, 0x6f, 0x72, 0x64, 0x68], []]] =
     .ok [{ input := 0, offset := 0, payload := {}, pushnum := false, stutter := false }] := by decide
 example : fromWitnesses [[[0x00, 0x63, 0x03, 0x6f, 0x72, 0x64, 0x4c], []]] = .ok [] := by decide
+
+-- the parse specification on non-ord payloads: a repeated pointer tag leaves an even key behind,
+-- an unknown odd tag does not, a lone trailing tag is an incomplete field
+def rawOf (payload : List Bytes) : Raw :=
+  { input := 0, offset := 0, payload := payload, pushnum := false, stutter := false }
+
+example : (match parse (rawOf [[2], [1], [2], [3]]) with
+     | .ok p => p.payload.unrecognizedEvenField && p.payload.duplicateField &&
+         p.payload.pointer == some [1]
+     | _ => false) = true := by decide
+example : (match parse (rawOf [[21], [1], [7]]) with
+     | .ok p => !p.payload.unrecognizedEvenField && p.payload.incompleteField
+     | _ => false) = true := by decide
 
 end Ord.Envelope
